@@ -602,6 +602,14 @@ class Interp:
             if self.parstack:
                 self._par_note(1, ("cfg",) + key)
             self.cfg[key] = v
+            if self.want_exact:
+                # the value is stored in the C type of the configuration field
+                try:
+                    ftyp = s.config.lookup_type(s.field)
+                except Exception:
+                    ftyp = None
+                if ftyp is not None and ftyp.is_real_scalar() and not fits(v, ftyp):
+                    self.res.exact_ok = False
             if self.res.trace is not None:
                 self.res.trace.append(("CW", key[0], key[1], v))
         elif c is _S.Pass:
